@@ -66,6 +66,90 @@ class RecArray:
         return (len(self.data),)
 
 
+# ---------------------------------------------------------------- declared signatures as preconditions
+SIG_VIOLATIONS = []  # (callee, position, declared type, what was passed) recorded while a case runs
+_SIG_BINDS = None
+
+
+def _parse_sig(txt):
+    """'nb.njit("f8(f8,f8[:])", cache=True)' -> (ret, [arg types]) or None"""
+    import re
+
+    m = re.search(r"""["']\s*([\w\[\]:, ]+?)\s*\((.*)\)\s*["']""", txt)
+    if not m:
+        return None
+    args = [a.strip() for a in m.group(2).split(",")] if m.group(2).strip() else []
+    return m.group(1).strip(), args
+
+
+def _conforms(t, v):
+    """Would the eagerly compiled dispatcher of this declared type accept v?  (float64 accepts
+    python/numpy reals -- ints are cast --; arrays must be 1-d numeric ndarrays; ints must be ints)"""
+    import numbers
+
+    if t == "f8":
+        return isinstance(v, (R, numbers.Real, np.floating, np.integer)) and not isinstance(v, (np.ndarray, RecArray))
+    if t in ("f8[:]", "f8[::1]"):
+        return isinstance(v, RecArray) or (isinstance(v, np.ndarray) and v.ndim == 1 and (v.dtype == object or np.issubdtype(v.dtype, np.floating)))
+    if t in ("i8", "i4"):
+        return isinstance(v, (int, np.integer)) and not isinstance(v, bool)
+    if t == "c16":
+        return isinstance(v, (R, numbers.Complex, np.floating, np.integer, np.complexfloating)) or type(v).__name__ == "Cx"
+    if t in ("string", "unicode_type"):
+        return isinstance(v, str)
+    return True  # types this contract does not model are not judged
+
+
+def signature_binds():
+    """Rebindings that wrap every njit-declared function of the package (plain Python with the JIT
+    disabled) by a checker of its declared argument types: the compiled dispatcher has no other
+    definition, so a call that does not conform raises TypeError only when the JIT is on."""
+    global _SIG_BINDS
+    if _SIG_BINDS is not None:
+        return _SIG_BINDS
+    import functools
+    import sys
+    import types
+
+    H.all_partonic_channel_classes()
+    wrappers = {}
+    for qn, node, _tree, deco in njit_functions():
+        sig = _parse_sig(deco)
+        if not sig:
+            continue
+        modname, fname = qn.rsplit(".", 1)
+        mod = sys.modules.get(modname)
+        f = getattr(mod, fname, None) if mod else None
+        if not isinstance(f, types.FunctionType) or len(sig[1]) != len(node.args.args):
+            continue
+
+        def mk(f=f, qn=qn, types_=sig[1]):
+            @functools.wraps(f)
+            def checked(*a, **kw):
+                if not kw and len(a) == len(types_):
+                    for i, (t, v) in enumerate(zip(types_, a)):
+                        if not _conforms(t, v):
+                            SIG_VIOLATIONS.append((qn, i, t, f"{type(v).__name__}: {v!r:.40}"))
+                elif kw or len(a) != len(types_):
+                    SIG_VIOLATIONS.append((qn, -1, f"{len(types_)} positional arguments", f"{len(a)} positional, keywords {sorted(kw)}"))
+                return f(*a, **kw)
+
+            checked.__wrapped_njit__ = f
+            return checked
+
+        wrappers[id(f)] = (f, mk())
+    binds = []
+    for m in list(sys.modules.values()):
+        if not isinstance(m, types.ModuleType) or not getattr(m, "__name__", "").startswith(("yadism.coefficient_functions", "yadism.esf")):
+            continue
+        for name, val in list(m.__dict__.items()):
+            w = wrappers.get(id(val))
+            if w is not None and w[0] is val:
+                binds.append((m, name, w[1]))
+    _SIG_BINDS = binds
+    return binds
+
+
 def index_triples(sy, rsl, prefix=""):
     out = []
     for part in ("reg", "sing", "loc"):
@@ -83,6 +167,19 @@ def index_triples(sy, rsl, prefix=""):
     return out
 
 
+def with_signature_check(sy, thunk):
+    """run thunk() with every njit-declared function wrapped by its signature checker; returns
+    (result triples + one pre-at-call triple)"""
+    del SIG_VIOLATIONS[:]
+    with rebind(*signature_binds()):
+        out = thunk()
+    bad = sorted(set(SIG_VIOLATIONS))
+    del SIG_VIOLATIONS[:]
+    out = list(out)
+    out.append(("pre-at-call: every call of an njit-declared function passes arguments of its declared types", [f"{c} arg{i}: declared {t}, got {g}" for c, i, t, g in bad[:4]], []))
+    return out
+
+
 def site_worker(sub, site):
     sy = H.Sy(extra="z")
     sub.cases += 1
@@ -90,10 +187,14 @@ def site_worker(sub, site):
     def case(sy, site=site):
         with rebind(*S.stub_binds(sy)):
             o = site.construct(sy)
-            rsl = o[site.order]()
-            if rsl is None:
-                return [("no-kernel-at-this-order", True, True)]
-            return index_triples(sy, rsl)
+
+            def thunk():
+                rsl = o[site.order]()
+                if rsl is None:
+                    return [("no-kernel-at-this-order", True, True)]
+                return index_triples(sy, rsl)
+
+            return with_signature_check(sy, thunk)
 
     try:
         sub.check(f"C18/index-bounds/{site.name}", case, sy, site.pre(sy), max_paths=256, timeout_ms=5000)
@@ -108,7 +209,7 @@ def label_worker(sub, item):
 
     def case(sy):
         with rebind(*S.stub_binds(sy)):
-            return index_triples(sy, f(nf))
+            return with_signature_check(sy, lambda: index_triples(sy, f(nf)))
 
     sub.check(f"C18/index-bounds/splitting/{lab}/nf={nf}", case, sy, [sy.z > 0, sy.z < 1])
 
@@ -262,6 +363,15 @@ def sec_ast(rep):
                 bad.append(f"line {n.lineno}: call of {n.func.id}")
         # explicit signature declared (eager compilation => the compile-all stand-in is exhaustive)
         has_sig = '"' in deco or "'" in deco
+        sig = _parse_sig(deco)
+        if sig:
+            import re
+
+            narrow = [t for t in [sig[0]] + sig[1] for tok in re.findall(r"\b(f4|c8|i1|i2|i4|u1|u2|u4|u8|b1|float32|complex64|int32|int16|int8)\b", t)]
+            if narrow:
+                bad.append(f"declared type narrower than the Python value it stands for ({', '.join(sorted(set(narrow)))}): CPython computes in float64 / complex128 / unbounded int")
+            if len(sig[1]) != len(node.args.args):
+                bad.append(f"signature declares {len(sig[1])} arguments, the function takes {len(node.args.args)}")
         rep.add(ob_eval(f"C18/no-semantic-fork/{name}", not bad and has_sig, detail="; ".join(bad) or "explicit signature; no construct with diverging numba semantics", inputs={} if not bad else {"constructs": bad}))
     rep.sample({"ast": "every njit function: explicit eager signature; no //, %, int**(-int), `is`, global, dict/set/comprehension/lambda/try"})
 
